@@ -563,7 +563,10 @@ def weave_fn(src, container, name, nth, opts, subs, mode, sig_only=False):
         te2 = len(sig_text[:te].rstrip())
         b.add(m.end(), '(' + ret + ': ')
         b.add(te2, ')')
-    if opts.get('vis') == 'pub' and not sig_text.lstrip().startswith('pub'):
+    # R8: visibility has no run-time meaning; inherent methods and free functions are widened to pub by default so that a
+    # change that starts calling a private helper from another module still type-checks in the unit
+    inherent = container in ('-', '') or (container.lstrip().startswith('impl') and ' for ' not in container)
+    if (opts.get('vis') == 'pub' or (inherent and not sig_only and opts.get('vis') != 'keep')) and not sig_text.lstrip().startswith('pub'):
         prefix = 'pub '
     if opts.get('rename'):
         m = re.search(r'\bfn\s+(' + re.escape(name) + r')\b', sig_text)
